@@ -138,14 +138,48 @@ def gen_history(rng, limit, timeout):
     return ops
 
 
-class ParentStub:
-    """drives the real BaseRunner._report_child_runner_heartbeats"""
+_PARENTS: dict = {}
 
-    def __init__(self, app, alive):
-        self.app, self._alive = app, alive
 
-    def get_active_child_runner_ids(self):
-        return list(self._alive)
+def ParentStub(app, alive):  # noqa: N802 - kept as a factory under its old name
+    """a REAL (minimal, concrete) BaseRunner of `app` whose live children are `alive`: drives the real
+    BaseRunner._report_child_runner_heartbeats with every attribute BaseRunner.__init__ sets up"""
+    from pynenc.runner.base_runner import BaseRunner
+
+    class ParentRunner(BaseRunner):
+        alive_children: list = []
+
+        @staticmethod
+        def mem_compatible() -> bool:
+            return True
+
+        @property
+        def max_parallel_slots(self) -> int:
+            return 1
+
+        def _on_start(self):
+            pass
+
+        def _on_stop(self):
+            pass
+
+        def _on_stop_runner_loop(self):
+            pass
+
+        def _waiting_for_results(self, *a, **k):
+            pass
+
+        def runner_loop_iteration(self):
+            pass
+
+        def get_active_child_runner_ids(self):
+            return list(self.alive_children)
+    key = id(app)
+    if key not in _PARENTS:
+        _PARENTS.clear()
+        _PARENTS[key] = ParentRunner(app)
+    _PARENTS[key].alive_children = list(alive)
+    return _PARENTS[key]
 
 
 def run_core_task(sysm: Sys, which: str, interfere):
@@ -370,7 +404,11 @@ def main(ctx: Ctx) -> int:
                        ("adv", t - e), ("scan_running",), ("adv", e), ("scan_running",), ("adv", e), ("scan_running",),
                        ("hb", [RUNNERS[0]]), ("parent_hb", ["c1"]), ("claim", 2, RUNNERS[1]), ("adv", limit - e), ("scan_pending",),
                        ("adv", e), ("scan_pending",), ("scan_running",), ("adv", e), ("scan_pending",),
-                       ("recover_pending", True), ("recover_running", True), ("scan_pending",), ("scan_running",)]
+                       ("recover_pending", True), ("recover_running", True), ("scan_pending",), ("scan_running",),
+                       # an owner that has been silent for longer than the time-out but STARTED an invocation only a moment ago: the
+                       # start of an invocation is not a sign of life of its runner
+                       ("hb", [RUNNERS[2]]), ("adv", t - 1.0), ("claim", 3, RUNNERS[2]), ("start", 3), ("adv", 2.0), ("scan_running",),
+                       ("claim", 4, "c1"), ("start", 4), ("adv", t), ("scan_running",), ("recover_running", True), ("scan_running",)]
             for o in ops:
                 opcount[o[0]] = opcount.get(o[0], 0) + 1
             for kind in ("mem", "sqlite"):
